@@ -4,8 +4,8 @@
 //! case = { "mode": "limits"|"versions", "script": "...", "peers": [...], "init": 0, "services": [...],
 //!          "ops": [...], "probe_steps": [..]|null, "mutations": [..], "versions": [..], "extra_limits": [...] }
 
-use crate::cmd_limits::*;
-use crate::sim::*;
+use aquah::cmd_limits::*;
+use aquah::sim::*;
 use air_interpreter_data::{InterpreterDataEnvelope, Versions};
 use serde_json::Value as J;
 use std::io::BufRead;
@@ -85,7 +85,7 @@ pub fn mutate(inp: &RunInput, m: &str, seed: u64) -> Option<RunInput> {
     Some(i)
 }
 
-pub fn main() {
+fn main() {
     quiet_panics();
     let stdin = std::io::stdin();
     for line in stdin.lock().lines() {
